@@ -862,12 +862,13 @@ Definition JI1 (w : Z) (p : p2p) (g : game) : Prop := 1 <= w /\ JI w p g.
 
 Lemma advance_timeline : forall p gs g w d p' o r G,
   advance predict p = Ok (p', o, r) ->
-  QS w d p gs -> JI1 w p g -> Forall (fun c => cs_last c < I32MAX) (ps_status p) -> TI p gs G ->
+  QS w d p gs -> JI1 w p g -> Forall (fun c => cs_last c < I32MAX) (ps_status p) ->
+  Forall (fun c => cs_last c + 1 < I32MAX) (ps_status p) -> TI p gs G ->
   exists gs', QS w d p' gs' /\ TI p' gs' (replay_hist G (o_requests o)) /\
     hist_step d (ps_pending p) (local_handles p) gs gs' /\ ps_kinds p' = ps_kinds p /\ spec_step p gs o p' /\
     Forall (truthful_lt (s_current (ps_sync p')) gs') (adv_frames G (o_requests o)).
 Proof.
-  intros p gs g w d p' o r G E HQS (Hw1p & HJI) Hbnd HTI.
+  intros p gs g w d p' o r G E HQS (Hw1p & HJI) Hbnd _ HTI.
   pose proof HQS as [Hw Hd Hmode Hn Hconn Hgos HQ Hlast Hfr Hkinds Hpe Hsok].
   destruct Hw as (Hw1 & Hw2 & Hw3). destruct Hmode as (Hrun & Hsp & Hdf).
   unfold advance in E. rewrite Hrun in E. cbn [negb] in E.
@@ -984,6 +985,33 @@ Proof.
 Qed.
 
 
+(* an arriving remote input keeps the timeline invariant (the game's history is untouched) *)
+Lemma remote_timeline : forall sp w d p gs pl f v e G,
+  QSg sp w d p gs -> TI p gs G -> 0 <= pl < ps_nplayers p -> nth_error (ps_kinds p) (Z.to_nat pl) = Some (KRemote e) ->
+  f = q_last_added (qnth (ps_sync p) pl) + 1 -> q_length (qnth (ps_sync p) pl) < QLEN ->
+  exists p' hist low, ev_input p pl f v = Ok p' /\ nth_error gs (Z.to_nat pl) = Some (hist, low) /\
+    QSg sp w d p' (updz gs (Z.to_nat pl) (hist ++ [v], low)) /\ TI p' (updz gs (Z.to_nat pl) (hist ++ [v], low)) G.
+Proof.
+  intros sp w d p gs pl f v e G HQS HTI Hpl Ek Hf Hcap.
+  destruct (remote_progress _ w d p gs pl f v e HQS Hpl Ek Hf Hcap)
+    as (p' & gs' & E & HQ' & q & hist & low & q' & Eq & Eg & -> & Hqs' & F' & P' & Hc' & _ & _ & _).
+  exists p', hist, low. split; [exact E|]. split; [exact Eg|]. split; [exact HQ'|].
+  destruct HTI as (HG & HGI & HPN). unfold TI. rewrite Hc', Hqs'.
+  pose proof (Forall2_nth _ _ _ _ _ _ (qs_qs _ _ _ _ HQS) Eq Eg) as Hqi. cbn [fst snd] in Hqi.
+  destruct (gq_remote_add _ _ G (Z.to_nat pl) q hist low q' v Hqi (HGI _ _ _ Eq Eg) (HPN _ _ _ Eq Eg) F' P') as (HGQ' & HPN').
+  assert (Hl1 : (Z.to_nat pl < length (s_queues (ps_sync p)))%nat) by (apply nth_error_Some; congruence).
+  assert (Hl2 : (Z.to_nat pl < length gs)%nat) by (apply nth_error_Some; congruence).
+  split; [exact HG|]. split.
+  + intros h0 q0 gh0 B C. destruct (Nat.eq_dec (Z.to_nat pl) h0) as [<-|Hne].
+    * rewrite nth_error_updz_same in B by exact Hl1. rewrite nth_error_updz_same in C by exact Hl2.
+      injection B as <-. injection C as <-. exact HGQ'.
+    * rewrite nth_error_updz_other in B by exact Hne. rewrite nth_error_updz_other in C by exact Hne. apply HGI; assumption.
+  + intros h0 q0 gh0 B C. destruct (Nat.eq_dec (Z.to_nat pl) h0) as [<-|Hne].
+    * rewrite nth_error_updz_same in B by exact Hl1. rewrite nth_error_updz_same in C by exact Hl2.
+      injection B as <-. injection C as <-. exact HPN'.
+    * rewrite nth_error_updz_other in B by exact Hne. rewrite nth_error_updz_other in C by exact Hne. exact (HPN h0 q0 gh0 B C).
+Qed.
+
 (* ================= the run theorems, once for both saving modes =================
    sp = the saving mode; CI = the invariant that ties the session to the game's saved states in that mode
    (dense: SessionProofs.JI; sparse: SessionSparse.JS with SessionSparse2.SX).  What the mode has to supply:
@@ -997,17 +1025,19 @@ Hypothesis CI_step : forall p gs g w d o,
   exists s g', sstep predict p o = Ok s /\ exec w g (o_requests (sr_out s)) = Some g' /\ CI w (sr_state s) g'.
 Hypothesis CI_adv : forall p gs g w d p' o r G,
   advance predict p = Ok (p', o, r) ->
-  QSg sp w d p gs -> CI w p g -> Forall (fun c => cs_last c < I32MAX) (ps_status p) -> TI p gs G ->
+  QSg sp w d p gs -> CI w p g -> Forall (fun c => cs_last c < I32MAX) (ps_status p) ->
+  Forall (fun c => cs_last c + 1 < I32MAX) (ps_status p) -> TI p gs G ->
   exists gs', QSg sp w d p' gs' /\ TI p' gs' (replay_hist G (o_requests o)) /\
     hist_step d (ps_pending p) (local_handles p) gs gs' /\ ps_kinds p' = ps_kinds p /\ spec_step p gs o p' /\
     Forall (truthful_lt (s_current (ps_sync p')) gs') (adv_frames G (o_requests o)).
 Hypothesis CI_frame : forall w p g, CI w p g -> gframe g = s_current (ps_sync p).
 Hypothesis CI_start : forall n w d kinds eps nspec, 1 <= w -> CI w (session_start n w sp d kinds eps nspec) (game0 w).
-(* every lemma of this section takes all four hypotheses, whether its proof uses them or not *)
-Set Default Proof Using "All".
+(* every lemma of this section takes the first three hypotheses (and the predictor's laws), whether its proof
+   uses them or not; the theorems about runs from the initial state take CI_start as well *)
+Set Default Proof Using "CI_step CI_adv CI_frame predict_idem predict_zero".
 
 Lemma TI_sync : forall p p' gs G, ps_sync p' = ps_sync p -> TI p gs G -> TI p' gs G.
-Proof. intros p p' gs G E H. unfold TI in *. rewrite E. exact H. Qed.
+Proof. clear CI_start. intros p p' gs G E H. unfold TI in *. rewrite E. exact H. Qed.
 
 (* what one operation does to the input histories the session holds *)
 Definition op_hist (d : Z) (p : p2p) (o : sop) (gs gs' : list ghost) : Prop :=
@@ -1025,6 +1055,7 @@ Lemma step_timeline_g : forall p gs g w d o,
     op_hist d p o gs gs' /\ ps_kinds (sr_state s) = ps_kinds p /\ spec_step p gs (sr_out s) (sr_state s) /\
     Forall (truthful_lt (s_current (ps_sync (sr_state s))) gs') (adv_frames (g_hist g) (o_requests (sr_out s))).
 Proof.
+  clear CI_start.
   intros p gs g w d o HQS HJI HTI Hok.
   destruct o as [h v|pl f v|ep st|hs|h|h dd|]; cbn [op_ok] in Hok; try discriminate.
   - destruct (CI_step p gs g w d (SLocal h v) HQS HJI Hok) as (s & g' & Es & Ex & HJ').
@@ -1074,10 +1105,12 @@ Proof.
     eapply TI_sync; [|exact HTI]. unfold gossip. destruct (nth_error (ps_remotes p) (Z.to_nat ep)); reflexivity.
   - assert (Hbnd : Forall (fun c => cs_last c < I32MAX) (ps_status p)).
     { apply Forall_forall. intros s0 Hs0. rewrite forallb_forall in Hok. specialize (Hok s0 Hs0). lia. }
+    assert (Hbnd1 : Forall (fun c => cs_last c + 1 < I32MAX) (ps_status p)).
+    { apply Forall_forall. intros s0 Hs0. rewrite forallb_forall in Hok. specialize (Hok s0 Hs0). lia. }
     destruct (CI_step p gs g w d SAdvance HQS HJI Hok) as (s0 & g' & Es0 & Ex & HJ').
     cbn [sstep] in Es0. destruct (advance predict p) as [[[p' o] r]| |] eqn:E; cbn [res_bind] in Es0; try discriminate. injection Es0 as <-.
     cbn [sr_state sr_out] in Ex, HJ'.
-    destruct (CI_adv p gs g w d p' o r (g_hist g) E HQS HJI Hbnd HTI) as (gs' & HQ' & HTI' & Hh' & Hkk' & Hss' & HTR').
+    destruct (CI_adv p gs g w d p' o r (g_hist g) E HQS HJI Hbnd Hbnd1 HTI) as (gs' & HQ' & HTI' & Hh' & Hkk' & Hss' & HTR').
     cbn [sstep]. rewrite ?E. cbn [res_bind].
     exists (mksr p' o r), gs', g'. cbn [sr_state sr_out]. split; [reflexivity|]. split; [exact HQ'|]. split; [exact Ex|].
     split; [exact HJ'|]. split; [rewrite (exec_hist _ _ _ _ Ex); exact HTI'|]. split; [exact Hh'|split; [exact Hkk'|split; [exact Hss'|exact HTR']]].
@@ -1090,6 +1123,7 @@ Theorem run_timeline_g : forall ops p gs g w d,
   exists p' outs gs' g', srun_in predict p ops = Ok (p', outs) /\ srun predict p ops = Ok (p', outs) /\
     exec_outs w g outs = Some g' /\ QSg sp w d p' gs' /\ CI w p' g' /\ TI p' gs' (g_hist g').
 Proof.
+  clear CI_start.
   induction ops as [|o ops IH]; intros p gs g w d HQS HJI HTI.
   - right. exists p, [], gs, g. cbn [srun_in srun exec_outs]. split; [reflexivity|]. split; [reflexivity|]. split; [reflexivity|].
     split; [exact HQS|]. split; [exact HJI|exact HTI].
@@ -1120,6 +1154,7 @@ Theorem run_timeline_streams_g : forall ops p gs g w d,
       nth_error gs (Z.to_nat pl) = Some (hist, low) ->
       exists low', nth_error gs' (Z.to_nat pl) = Some (hist ++ remote_vals pl ops, low').
 Proof.
+  clear CI_start.
   induction ops as [|o ops IH]; intros p gs g w d HQS HJI HTI.
   - right. exists p, [], gs, g. cbn [srun_in srun exec_outs remote_vals flat_map]. split; [reflexivity|]. split; [reflexivity|]. split; [reflexivity|].
     split; [exact HQS|]. split; [exact HJI|]. split; [exact HTI|]. split; [reflexivity|].
@@ -1167,9 +1202,10 @@ Definition grows_gs (gs gs' : list ghost) : Prop :=
   length gs' = length gs /\
   forall h g', nth_error gs' h = Some g' -> exists g ext, nth_error gs h = Some g /\ fst g' = fst g ++ ext.
 Lemma grows_gs_refl : forall gs, grows_gs gs gs.
-Proof. intros gs. split; [reflexivity|]. intros h g' H. exists g', []. rewrite app_nil_r. split; [exact H|reflexivity]. Qed.
+Proof. clear CI_start. intros gs. split; [reflexivity|]. intros h g' H. exists g', []. rewrite app_nil_r. split; [exact H|reflexivity]. Qed.
 Lemma grows_gs_trans : forall a b c, grows_gs a b -> grows_gs b c -> grows_gs a c.
 Proof.
+  clear CI_start.
   intros a b c (L1 & H1) (L2 & H2). split; [congruence|]. intros h g' H.
   destruct (H2 h g' H) as (g1 & e1 & A1 & B1). destruct (H1 h g1 A1) as (g0 & e0 & A0 & B0).
   exists g0, (e0 ++ e1). split; [exact A0|]. rewrite B1, B0, app_assoc. reflexivity.
@@ -1178,6 +1214,7 @@ Qed.
 Lemma op_hist_grows_g : forall w d p o gs gs' p', QSg sp w d p gs -> QSg sp w d p' gs' -> ps_nplayers p' = ps_nplayers p ->
   op_hist d p o gs gs' -> grows_gs gs gs'.
 Proof.
+  clear CI_start.
   intros w d p o gs gs' p' HQ HQ' Hnp Hop.
   assert (Hlen : length gs' = length gs).
   { destruct (qs_n _ _ _ _ HQ) as (A & _). destruct (qs_n _ _ _ _ HQ') as (B & _). lia. }
@@ -1195,6 +1232,7 @@ Qed.
 Lemma held_at_stable : forall gs gs' f, grows_gs gs gs' -> 0 <= f ->
   Forall (fun g : ghost => f < hlen (fst g)) gs -> held_at gs' f = held_at gs f.
 Proof.
+  clear CI_start.
   intros gs gs' f (Hl & Hg) Hf Hb. unfold held_at.
   apply (nth_ext _ _ (mkpi 0 0) (mkpi 0 0)); [rewrite !map_length; exact Hl|].
   intros n Hn. rewrite map_length in Hn.
@@ -1206,6 +1244,7 @@ Qed.
 
 Lemma zrange_app : forall n m a, zrange_from a (n + m) = zrange_from a n ++ zrange_from (a + Z.of_nat n) m.
 Proof.
+  clear CI_start.
   induction n as [|n IH]; intros m a; cbn [zrange_from plus app]; [f_equal; lia|].
   rewrite IH. f_equal. f_equal. f_equal. lia.
 Qed.
@@ -1227,6 +1266,7 @@ Theorem run_timeline_broadcast_g : forall ops p gs g w d,
     ps_next_spec p <= ps_next_spec p' /\
     all_spec_sends outs = map (fun f => (f, held_at gs' f)) (zrange_from (ps_next_spec p) (Z.to_nat (ps_next_spec p' - ps_next_spec p))).
 Proof.
+  clear CI_start.
   induction ops as [|o ops IH]; intros p gs g w d HQS HJI HTI Hne Hex.
   - right. exists p, [], gs, g. cbn [srun_in exec_outs all_spec_sends map concat]. split; [reflexivity|]. split; [reflexivity|].
     split; [exact HQS|]. split; [exact HJI|]. split; [exact HTI|]. split; [apply grows_gs_refl|]. split; [reflexivity|]. split; [reflexivity|].
@@ -1259,6 +1299,7 @@ Qed.
 
 Lemma TI_start_g : forall n w d kinds eps nspec, TI (session_start n w sp d kinds eps nspec) (repeat ([], 0) (Z.to_nat n)) [].
 Proof.
+  clear CI_start.
   intros n w d kinds eps nspec. unfold TI, session_start, p2p_new, sync_new.
   cbn [with_running with_queues ps_sync s_current s_queues glen length Z.of_nat].
   split; [reflexivity|]. split.
@@ -1280,7 +1321,7 @@ Theorem confirmed_frames_use_held_inputs_g : forall ops n w d kinds eps nspec p 
     forall h hist low f, nth_error gs h = Some (hist, low) ->
       0 <= f <= s_last_confirmed (ps_sync p) -> f < s_current (ps_sync p) ->
       f < hlen hist /\ gvalL (g_hist g) f h = hval hist f.
-Proof.
+Proof using All.
   intros ops n w d kinds eps nspec p outs Hw Hd Hcap Hn Hlen Hpl H.
   destruct (run_timeline_g ops _ _ (game0 w) w d (QS_start_gen sp n w d kinds eps nspec Hw Hd Hcap Hn Hlen Hpl)
               (CI_start n w d kinds eps nspec Hw) (TI_start_g n w d kinds eps nspec))
@@ -1308,7 +1349,7 @@ Theorem confirmed_frames_use_delivered_inputs_g : forall ops n w d kinds eps nsp
     forall pl e f, 0 <= pl -> nth_error kinds (Z.to_nat pl) = Some (KRemote e) ->
       0 <= f <= s_last_confirmed (ps_sync p) -> f < s_current (ps_sync p) ->
       f < hlen (remote_vals pl ops) /\ gvalL (g_hist g) f (Z.to_nat pl) = hval (remote_vals pl ops) f.
-Proof.
+Proof using All.
   intros ops n w d kinds eps nspec p outs Hw Hd Hcap Hn Hlen Hpl H.
   destruct (run_timeline_streams_g ops _ _ (game0 w) w d (QS_start_gen sp n w d kinds eps nspec Hw Hd Hcap Hn Hlen Hpl)
               (CI_start n w d kinds eps nspec Hw) (TI_start_g n w d kinds eps nspec))
@@ -1341,6 +1382,7 @@ Theorem held_inputs_step_g : forall p gs g w d o,
   exists s gs' g', sstep predict p o = Ok s /\ QSg sp w d (sr_state s) gs' /\ CI w (sr_state s) g' /\
     TI (sr_state s) gs' (g_hist g') /\ op_hist d p o gs gs'.
 Proof.
+  clear CI_start.
   intros p gs g w d o HQS HJI HTI Hok.
   destruct (step_timeline_g p gs g w d o HQS HJI HTI Hok) as (s & gs' & g' & A & B & _ & C & D & E & _ & _ & _).
   exists s, gs', g'. split; [exact A|]. split; [exact B|]. split; [exact C|]. split; [exact D|exact E].
@@ -1355,7 +1397,7 @@ Theorem host_broadcast_is_confirmed_timeline_g : forall ops n w d kinds eps nspe
     all_spec_sends outs = map (fun f => (f, held_at gs f)) (zrange_from 0 (Z.to_nat (ps_next_spec p))) /\
     0 <= ps_next_spec p /\ s_last_confirmed (ps_sync p) + 1 <= ps_next_spec p /\
     Forall (fun g : ghost => ps_next_spec p <= hlen (fst g)) gs.
-Proof.
+Proof using All.
   intros ops n w d kinds eps nspec p outs Hw Hd Hcap Hn Hlen Hpl Hns H.
   assert (Hsp : ps_spectators (session_start n w sp d kinds eps nspec) = repeat true nspec) by reflexivity.
   destruct (run_timeline_broadcast_g ops _ _ (game0 w) w d (QS_start_gen sp n w d kinds eps nspec Hw Hd Hcap Hn Hlen Hpl)
@@ -1376,7 +1418,7 @@ Theorem invariants_reachable_g : forall ops n w d kinds eps nspec p outs,
   1 <= w -> 0 <= d -> w + d + 3 <= QLEN -> 0 < n -> Z.of_nat (length kinds) = n -> players_only kinds ->
   srun_in predict (session_start n w sp d kinds eps nspec) ops = Ok (p, outs) ->
   exists g gs, exec_outs w (game0 w) outs = Some g /\ QSg sp w d p gs /\ CI w p g /\ TI p gs (g_hist g).
-Proof.
+Proof using All.
   intros ops n w d kinds eps nspec p outs Hw Hd Hcap Hn Hlen Hpl H.
   destruct (run_timeline_g ops _ _ (game0 w) w d (QS_start_gen sp n w d kinds eps nspec Hw Hd Hcap Hn Hlen Hpl)
               (CI_start n w d kinds eps nspec Hw) (TI_start_g n w d kinds eps nspec))
@@ -1396,6 +1438,7 @@ Theorem requests_truthful_step_g : forall p gs g w d o,
     TI (sr_state s) gs' (g_hist g') /\ op_hist d p o gs gs' /\
     Forall (truthful_lt (s_current (ps_sync (sr_state s))) gs') (adv_frames (g_hist g) (o_requests (sr_out s))).
 Proof.
+  clear CI_start.
   intros p gs g w d o HQS HJI HTI Hok.
   destruct (step_timeline_g p gs g w d o HQS HJI HTI Hok) as (s & gs' & g' & A & B & _ & C & D & E & _ & _ & F).
   exists s, gs', g'. split; [exact A|]. split; [exact B|]. split; [exact C|]. split; [exact D|]. split; [exact E|exact F].
@@ -1406,6 +1449,7 @@ Theorem confirmed_frame_monotone_g : forall p gs g w d o s cf cf',
   QSg sp w d p gs -> CI w p g -> TI p gs (g_hist g) -> op_ok p o = true ->
   sstep predict p o = Ok s -> confirmed_frame p = Ok cf -> confirmed_frame (sr_state s) = Ok cf' -> cf <= cf'.
 Proof.
+  clear CI_start.
   intros p gs g w d o s cf cf' HQS HJI HTI Hok Es Ecf Ecf'.
   destruct (step_timeline_g p gs g w d o HQS HJI HTI Hok) as (s0 & gs' & g' & A & B & _ & _ & _ & E & K & _ & _).
   rewrite Es in A. injection A as <-.
@@ -1449,19 +1493,19 @@ Proof. intros n w d kinds eps nspec Hw. split; [exact Hw|]. apply JI_start. lia.
 Lemma JI1_frame : forall w p g, JI1 w p g -> gframe g = s_current (ps_sync p).
 Proof. intros w p g (_ & H). exact (ji_frame _ _ _ H). Qed.
 
-Definition step_timeline := step_timeline_g false JI1 dense_CI_step advance_timeline JI1_frame dense_CI_start.
-Definition run_timeline := run_timeline_g false JI1 dense_CI_step advance_timeline JI1_frame dense_CI_start.
+Definition step_timeline := step_timeline_g false JI1 dense_CI_step advance_timeline JI1_frame.
+Definition run_timeline := run_timeline_g false JI1 dense_CI_step advance_timeline JI1_frame.
 Definition confirmed_frames_use_held_inputs :=
   confirmed_frames_use_held_inputs_g false JI1 dense_CI_step advance_timeline JI1_frame dense_CI_start.
 Definition confirmed_frames_use_delivered_inputs :=
   confirmed_frames_use_delivered_inputs_g false JI1 dense_CI_step advance_timeline JI1_frame dense_CI_start.
-Definition held_inputs_step := held_inputs_step_g false JI1 dense_CI_step advance_timeline JI1_frame dense_CI_start.
+Definition held_inputs_step := held_inputs_step_g false JI1 dense_CI_step advance_timeline JI1_frame.
 Definition host_broadcast_is_confirmed_timeline :=
   host_broadcast_is_confirmed_timeline_g false JI1 dense_CI_step advance_timeline JI1_frame dense_CI_start.
-Definition TI_start := TI_start_g false JI1 dense_CI_step advance_timeline JI1_frame dense_CI_start.
+Definition TI_start := TI_start_g false JI1 dense_CI_step advance_timeline JI1_frame.
 Definition invariants_reachable := invariants_reachable_g false JI1 dense_CI_step advance_timeline JI1_frame dense_CI_start.
-Definition requests_truthful_step := requests_truthful_step_g false JI1 dense_CI_step advance_timeline JI1_frame dense_CI_start.
-Definition confirmed_frame_monotone := confirmed_frame_monotone_g false JI1 dense_CI_step advance_timeline JI1_frame dense_CI_start.
+Definition requests_truthful_step := requests_truthful_step_g false JI1 dense_CI_step advance_timeline JI1_frame.
+Definition confirmed_frame_monotone := confirmed_frame_monotone_g false JI1 dense_CI_step advance_timeline JI1_frame.
 
 (* C09's premise: at every call boundary of a run inside the space, the state saved for a confirmed
    frame F that is still inside the saved-state window is the serial replay of the held inputs of the
